@@ -109,7 +109,11 @@ def export_sparse_array(fp: TextIO, A: ttb.sptensor, fmt_data: Optional[str]):
     # TODO: looping through all values may take a long time, can this be more efficient?
     for i in range(A.nnz):
         # 0-based indexing in package, 1-based indexing in file
-        subs = A.subs[i, :] + 1
+        # (in 64 bits: the largest subscript of a narrower type would wrap around)
+        subs = A.subs[i, :]
+        if subs.dtype.itemsize < 8:
+            subs = subs.astype(np.int64)
+        subs = subs + 1
         subs.tofile(fp, sep=" ", format="%d")
         print(end=" ", file=fp)
         val = A.vals[i][0]
